@@ -7,7 +7,7 @@ import tempfile
 ID = 'C30'
 LEVEL = 'exploration'
 QUICK_S = 60
-THOROUGH_S = 900
+THOROUGH_S = 300
 TECHNIQUE = ('runtime monitoring: the click commands are invoked in-process (CliRunner) on generated command lines; exit code, '
              'log records and the keyword arguments received by a recording generator are compared with a small argv model')
 RULE = ('check: 1-4 model files (valid; syntax error; unknown reference at a known line/col; text of another language) in random '
@@ -292,7 +292,7 @@ def classify(got, exp):
 
 
 def run(ctx):
-    for i in ctx.indices(4500 if ctx.tier == 'quick' else 50000, 'random'):
+    for i in ctx.indices(4500 if ctx.tier == 'quick' else 10 ** 7, 'random'):
         one(ctx, i)
 
 
